@@ -47,7 +47,7 @@ class Run:
             self.distinct.add(key)
 
     def violation(self, clause, inp, observed, expected):
-        if len(self.violations) < 5:
+        if sum(1 for v in self.violations if v["clause"] == clause) < 2 and len(self.violations) < 8:
             self.violations.append({"clause": clause, "input": inp, "observed": _j(observed), "expected": _j(expected)})
 
     def sample(self, s):
@@ -268,3 +268,160 @@ def rows(table):
             d.append(_norm(getattr(r, f)))
         out.append(tuple(d))
     return out
+
+
+# ------------------------------------------------------------------------------------------ validity (C02)
+def valid_tables(t, indexes=None):
+    """structural requirements of docs/data-model.md for TableCollection.tree_sequence(); returns (ok, reason).
+    indexes: (insertion, removal) arrays or None when the collection is not indexed"""
+    fin = math.isfinite
+    L = t.sequence_length
+    if not (L > 0):
+        return False, "sequence_length"
+    N, E, S, M, G, I, P = t.nodes, t.edges, t.sites, t.mutations, t.migrations, t.individuals, t.populations
+    nn, ne, ns, nm, ni, npop = N.num_rows, E.num_rows, S.num_rows, M.num_rows, I.num_rows, P.num_rows
+    for u in range(nn):
+        if not fin(N.time[u]):
+            return False, "node time nonfinite"
+        if not (-1 <= N.population[u] < npop):
+            return False, "node population"
+        if not (-1 <= N.individual[u] < ni):
+            return False, "node individual"
+    for e in range(ne):
+        p, c, l, r = int(E.parent[e]), int(E.child[e]), E.left[e], E.right[e]
+        if not (0 <= p < nn and 0 <= c < nn):
+            return False, "edge node ref"
+        if not (fin(l) and fin(r)) or l < 0 or r > L or not (l < r):
+            return False, "edge interval"
+        if not (N.time[c] < N.time[p]):
+            return False, "edge time order"
+    # ordering of edges: (time[parent], parent) non-decreasing groups, contiguous parents, child/left increasing
+    seen_parents = set()
+    for e in range(1, ne):
+        p0, p1 = int(E.parent[e - 1]), int(E.parent[e])
+        if N.time[p1] < N.time[p0]:
+            return False, "edges not sorted by parent time"
+        if p0 != p1:
+            seen_parents.add(p0)
+            if p1 in seen_parents:
+                return False, "noncontiguous parents"
+        else:
+            c0, c1 = int(E.child[e - 1]), int(E.child[e])
+            if c1 < c0:
+                return False, "edges not sorted by child"
+            if c1 == c0 and not (E.left[e] > E.left[e - 1]):
+                return False, "edges not sorted by left / duplicate"
+    for s in range(ns):
+        x = S.position[s]
+        if not fin(x) or x < 0 or not (x < L):
+            return False, "site position"
+        if s > 0 and not (S.position[s - 1] < x):
+            return False, "sites unsorted or duplicate"
+    for m in range(nm):
+        if not (0 <= M.site[m] < ns and 0 <= M.node[m] < nn and -1 <= M.parent[m] < nm) or M.parent[m] == m:
+            return False, "mutation refs"
+        tm = M.time[m]
+        unk = tskit.is_unknown_time(tm)
+        if not unk:
+            if not fin(tm) or tm < N.time[M.node[m]]:
+                return False, "mutation time"
+        if M.parent[m] != -1:
+            pm_ = int(M.parent[m])
+            if M.site[pm_] != M.site[m] or pm_ > m:
+                return False, "mutation parent"
+            if not unk and tm > M.time[pm_]:
+                return False, "mutation older than parent mutation"
+        if m > 0:
+            if M.site[m - 1] > M.site[m]:
+                return False, "mutations unsorted"
+            if M.site[m - 1] == M.site[m]:
+                if unk != tskit.is_unknown_time(M.time[m - 1]):
+                    return False, "known and unknown times"
+                if not unk and tm > M.time[m - 1]:
+                    return False, "mutations unsorted by time"
+    for g in range(G.num_rows):
+        if not (0 <= G.node[g] < nn and 0 <= G.source[g] < npop and 0 <= G.dest[g] < npop):
+            return False, "migration refs"
+        l, r = G.left[g], G.right[g]
+        if not fin(G.time[g]) or not (fin(l) and fin(r)) or l < 0 or r > L or not (l < r):
+            return False, "migration values"
+        if g > 0 and G.time[g - 1] > G.time[g]:
+            return False, "migrations unsorted"
+    off = I.parents_offset
+    for q in range(ni):
+        for p in I.parents[off[q]:off[q + 1]]:
+            if not (-1 <= p < ni) or p == q:
+                return False, "individual parents"
+    if indexes is None:
+        return False, "not indexed"
+    ins, rem = list(indexes[0]), list(indexes[1])
+    if len(ins) != ne or len(rem) != ne:
+        return False, "index length"
+    if sorted(ins) != list(range(ne)) or sorted(rem) != list(range(ne)):
+        return False, "index not a permutation"
+    # the index orders must be consistent with sweeping the trees left to right
+    kin = [(E.left[e], N.time[E.parent[e]]) for e in ins]
+    if any(kin[a][0] > kin[a + 1][0] for a in range(ne - 1)):
+        return False, "insertion order not sorted by left"
+    kout = [E.right[e] for e in rem]
+    if any(kout[a] > kout[a + 1] for a in range(ne - 1)):
+        return False, "removal order not sorted by right"
+    # disjoint child intervals
+    by_child = {}
+    for e in range(ne):
+        by_child.setdefault(int(E.child[e]), []).append((E.left[e], E.right[e]))
+    for c, ivs in by_child.items():
+        ivs.sort()
+        if any(ivs[a][1] > ivs[a + 1][0] for a in range(len(ivs) - 1)):
+            return False, "contradictory children"
+    # mutation time must be younger than the parent node of the branch it sits on
+    for m in range(nm):
+        tm = M.time[m]
+        if not tskit.is_unknown_time(tm):
+            pmap = parent_map_cols(t, S.position[M.site[m]])
+            u = int(M.node[m])
+            if u in pmap and not (tm < N.time[pmap[u]]):
+                return False, "mutation time older than parent node"
+    return True, ""
+
+
+def cols(t):
+    """compact exact representation of a table collection: {table: {column: list}} + sequence_length"""
+    out = {"sequence_length": repr(t.sequence_length)}
+    for name in ("individuals", "nodes", "edges", "migrations", "sites", "mutations", "populations", "provenances"):
+        tab = getattr(t, name)
+        d = {}
+        for c in tab.column_names:
+            a = getattr(tab, c)
+            if a is None:
+                continue
+            d[c] = a.tobytes().hex() if a.dtype.kind in "fS" or a.dtype == np.int8 or a.dtype == np.uint8 else a.tolist()
+        if tab.num_rows or any(len(v) for v in d.values()):
+            out[name] = d
+    return out
+
+
+def same_tables(a, b):
+    """byte-wise equality of every column (NaN-safe) and of the sequence length"""
+    import struct
+    if struct.pack("<d", a.sequence_length) != struct.pack("<d", b.sequence_length):
+        return False
+    for name in ("individuals", "nodes", "edges", "migrations", "sites", "mutations", "populations", "provenances"):
+        ta, tb = getattr(a, name), getattr(b, name)
+        if ta.num_rows != tb.num_rows:
+            return False
+        for c in ta.column_names:
+            x, y = getattr(ta, c), getattr(tb, c)
+            if x.tobytes() != y.tobytes():
+                return False
+        if hasattr(ta, "metadata_schema") and repr(ta.metadata_schema) != repr(tb.metadata_schema):
+            return False
+    return True
+
+
+def brief(t):
+    return {"L": t.sequence_length,
+            "nodes": [(int(f), float(x), int(p), int(i)) for f, x, p, i in zip(t.nodes.flags, t.nodes.time, t.nodes.population, t.nodes.individual)],
+            "edges": [(float(l), float(r), int(p), int(c)) for l, r, p, c in zip(t.edges.left, t.edges.right, t.edges.parent, t.edges.child)],
+            "sites": [(float(p), a) for p, a in zip(t.sites.position, [s.ancestral_state for s in t.sites])],
+            "mutations": [(int(m.site), int(m.node), m.derived_state, int(m.parent), float(m.time)) for m in t.mutations]}
